@@ -1,6 +1,8 @@
 """C05 — interrupted generation never destroys an existing file (per-file atomicity)."""
+import copy
 import json
 import os
+import random
 import shutil
 import time
 
@@ -136,6 +138,72 @@ def crash_case(runner, r, oc, reqs, pend, max_points, big=False, support_copy=Fa
             oc.case(("crash", json.dumps(model2, sort_keys=True, default=str), k, mode, flush), nontrivial=bool(before) and k < n)
         if len(oc.samples) < 3:
             oc.samples.append(dict(model=model2, evolved=evolve, operations=n, crash_points=len(points), first_ops=ops[:5]))
+
+
+def reused_instance_case(runner, r, oc, points=12):
+    """a script that keeps its generator object (smgen.CStateMachineGenerator): first run into an empty directory - every file
+    is new -, hand-written code added, then the same object generates again (same or changed table) and is interrupted"""
+    import sys
+    smgen = sys.modules["kojen.smgen"]
+    backend = r.choice(["cpp", "cs", "py"])
+    model = genlib.rand_sm_model(r, backend)
+    lang_mod, lang_cls, tdir = {"cpp": ("kojen.LanguageCPP", "LanguageCPP", "statemachine_templates_embedded_arm"),
+                                "cs": ("kojen.LanguageCsharp", "LanguageCsharp", "statemachine_templates_cs_winlinmac"),
+                                "py": ("kojen.LanguagePython", "LanguagePython", "statemachine_templates_py")}[backend]
+    templatedir = os.path.join(os.path.dirname(smgen.__file__), tdir)
+    model2 = genlib.mutate_model(r, model)[0] if r.random() < 0.5 else model
+    if model2["iface"] != model["iface"]:
+        model2 = model      # (the object is built around one events interface)
+
+    def make(outdir):
+        with genlib.quiet():
+            g = smgen.CStateMachineGenerator(templatedir, outdir, genlib.build_iface(runner.kt, model["iface"]), getattr(sys.modules[lang_mod], lang_cls)(), "auth", "grp", "brief")
+        g.vpp_filename = "Transition Table"
+        return g
+
+    def gen(g, m):
+        with genlib.quiet():
+            return g.Generate(copy.deepcopy(m["tt"]), m["ns"], m["name"], m.get("dclspc", ""), False)
+
+    def first_run(outdir, seed):
+        g = make(outdir)
+        gen(g, model)
+        r2 = random.Random(seed)
+        for rel, data in sorted(e2e.snapshot(outdir).items()):
+            dups = genlib.duplicate_tags(data.decode("utf-8", "surrogateescape"))
+            genlib.edit_file(r2, os.path.join(outdir, rel), fraction=0.6, skip=dups)
+        return g
+    with scratch() as base:
+        seed = r.randrange(1 << 30)
+        ref = os.path.join(base, "ref")
+        g = first_run(ref, seed)
+        before = e2e.snapshot(ref)
+        with fsfault.Tracer(ref) as tr:
+            gen(g, model2)
+        n = len(norm_ops(tr.ops))
+        final = e2e.snapshot(ref)
+        ks = sorted(set(r.sample(range(n + 1), min(n + 1, points))))
+        for k in ks:
+            work = os.path.join(base, "w%d" % k)
+            g = first_run(work, seed)
+            if e2e.snapshot(work) != before:
+                oc.corr_failures.append(dict(what="the prepared tree of a reused-generator history is not reproducible", model=model))
+                return
+            with fsfault.Tracer(work, fail_at=k, mode="raise"):
+                try:
+                    gen(g, model2)
+                except OSError:
+                    pass
+            after = e2e.snapshot(work)
+            for rel, old in before.items():
+                new = after.get(rel)
+                if new != old and new != final.get(rel):
+                    oc.violations.append(dict(what="generator object used for a second run: after a raised ENOSPC at operation %d the pre-existing file %s is neither its old nor the complete new content" % (k, rel),
+                                              model=model2, first_model=model, k=k, mode="raise", reused_generator=True, old=old, got=new, complete_new=final.get(rel)))
+                    return
+            shutil.rmtree(work, ignore_errors=True)
+            oc.case(("reused", json.dumps(model2, sort_keys=True, default=str), k), nontrivial=k < n)
+        oc.stat("reused_generator_histories")
 
 
 def traced_ops(ops):
@@ -307,6 +375,10 @@ def run(tier):
             break
     if not oc.violations:
         writer_cases(r, oc, 40 if thorough else 16)
+    for i in range(12 if thorough else 3):
+        if oc.violations:
+            break
+        reused_instance_case(runner, r, oc, points=30 if thorough else 12)
     settle(oc, reqs, pend)
     return finish(PROP, tier, proof, oc, t0, level="proof", trusted=TRUSTED, search=search)
 
